@@ -318,13 +318,90 @@ Proof.
   rewrite (min_count_by_perm String.eqb _ _ (flat_map_perm _ _ _ H)). reflexivity.
 Qed.
 
-Lemma infer_scalar_branch_perm h d ser ser' :
-  Permutation ser ser' -> infer_scalar_branch h d ser = infer_scalar_branch h d ser'.
+(* ---- date recognition: explicit formats are order independent, the guessed one is not *)
+Definition explicit_parse (ser : list cell) : bool :=
+  existsb (fun fo => match fo with Some f => parses_with f ser | None => false end) possible_time_formats.
+
+(* the column parses under an explicit candidate format, or under no format at all *)
+Definition date_robust (ser : list cell) : Prop :=
+  explicit_parse ser = true \/ (forall f, parses_with f ser = false).
+
+Lemma parses_with_perm f ser ser' : Permutation ser ser' -> parses_with f ser = parses_with f ser'.
+Proof. apply forallb_perm. Qed.
+
+Lemma is_timestamp_explicit ser : explicit_parse ser = true -> is_timestamp ser = true.
 Proof.
-  intros H. unfold infer_scalar_branch, is_timestamp, min_count.
-  rewrite (forallb_perm is_integral _ _ H), (forallb_perm is_datestr _ _ H),
-          (min_count_by_perm cell_eqb _ _ H),
-          (max_min_count_perm _ _ H).
+  unfold explicit_parse, is_timestamp. induction possible_time_formats as [|fo r IH]; simpl; [discriminate|].
+  intros H. apply orb_true_iff in H. destruct H as [H|H].
+  - destruct fo; [now rewrite H | discriminate].
+  - rewrite (IH H). apply orb_true_r.
+Qed.
+
+Lemma is_timestamp_none ser : (forall f, parses_with f ser = false) -> is_timestamp ser = false.
+Proof.
+  intros H. unfold is_timestamp. induction possible_time_formats as [|fo r IH]; simpl; auto.
+  rewrite IH, orb_false_r. destruct fo; [apply H|].
+  unfold parses_guessing. destruct ser as [|c t]; auto. destruct c; auto.
+Qed.
+
+Lemma explicit_parse_perm ser ser' : Permutation ser ser' -> explicit_parse ser = explicit_parse ser'.
+Proof.
+  intros H. unfold explicit_parse. induction possible_time_formats as [|fo r IH]; simpl; auto.
+  rewrite IH. destruct fo; auto. now rewrite (parses_with_perm s _ _ H).
+Qed.
+
+Lemma date_robust_perm ser ser' : Permutation ser ser' -> date_robust ser -> date_robust ser'.
+Proof.
+  intros H [A|B]; [left | right].
+  - now rewrite <- (explicit_parse_perm _ _ H).
+  - intros f. now rewrite <- (parses_with_perm f _ _ H).
+Qed.
+
+Lemma is_timestamp_perm ser ser' :
+  date_robust ser -> Permutation ser ser' -> is_timestamp ser = is_timestamp ser'.
+Proof.
+  intros R H. pose proof (date_robust_perm _ _ H R) as R'.
+  destruct R as [A|B].
+  - rewrite (is_timestamp_explicit _ A). symmetry. apply is_timestamp_explicit.
+    now rewrite <- (explicit_parse_perm _ _ H).
+  - rewrite (is_timestamp_none _ B). symmetry. apply is_timestamp_none.
+    intros f. now rewrite <- (parses_with_perm f _ _ H).
+Qed.
+
+(* a cell that no format accepts (anything but a date string) makes the column robust *)
+Lemma parses_with_false f ser x :
+  In x ser -> cell_accepts f x = false -> parses_with f ser = false.
+Proof.
+  intros I A. unfold parses_with. destruct (forallb (cell_accepts f) ser) eqn:Z; auto.
+  rewrite forallb_forall in Z. rewrite (Z _ I) in A. discriminate.
+Qed.
+
+Lemma non_date_cell_robust ser x : In x ser -> is_datestr x = false -> date_robust ser.
+Proof.
+  intros I D. right. intros f. apply (parses_with_false f ser x I). destruct x; auto; discriminate.
+Qed.
+
+Lemma explicit_format_robust ser f :
+  In (Some f) possible_time_formats -> parses_with f ser = true -> date_robust ser.
+Proof.
+  intros I P. left. unfold explicit_parse. apply existsb_exists. exists (Some f). auto.
+Qed.
+
+Lemma infers_boolean_perm ser ser' : Permutation ser ser' -> infers_boolean ser = infers_boolean ser'.
+Proof.
+  intros H. unfold infers_boolean. rewrite (forallb_perm is_bool_cell _ _ H).
+  destruct ser, ser'; auto.
+  - apply Permutation_nil in H. discriminate.
+  - apply Permutation_sym, Permutation_nil in H. discriminate.
+Qed.
+
+Lemma infer_scalar_branch_perm h d ser ser' :
+  Permutation ser ser' -> is_timestamp ser = is_timestamp ser' ->
+  infer_scalar_branch h d ser = infer_scalar_branch h d ser'.
+Proof.
+  intros H T. unfold infer_scalar_branch, min_count.
+  rewrite T, (forallb_perm is_integral _ _ H), (infers_boolean_perm _ _ H),
+          (min_count_by_perm cell_eqb _ _ H), (max_min_count_perm _ _ H).
   reflexivity.
 Qed.
 
@@ -367,10 +444,10 @@ Proof.
 Qed.
 
 Theorem infer_perm_invariant col col' :
-  homogeneous col -> Permutation col col' ->
+  homogeneous col -> date_robust (dropna col) -> Permutation col col' ->
   infer_series_stype col = infer_series_stype col'.
 Proof.
-  intros Hh HP. pose proof (dropna_perm _ _ HP) as HD.
+  intros Hh HR HP. pose proof (dropna_perm _ _ HP) as HD.
   destruct Hh as [A|B].
   - assert (A' : forallb is_list (dropna col') = true) by now rewrite <- (forallb_perm _ _ _ HD).
     destruct (dropna col) as [|c r] eqn:E.
@@ -386,7 +463,7 @@ Proof.
     destruct (dropna col) as [|c r] eqn:E, (dropna col') as [|c' r'] eqn:E'; auto.
     + apply Permutation_nil in HD. discriminate.
     + apply Permutation_sym, Permutation_nil in HD. discriminate.
-    + apply infer_scalar_branch_perm, HD.
+    + apply infer_scalar_branch_perm; [exact HD | apply is_timestamp_perm; assumption].
 Qed.
 
 (* the model never predicts an exception *)
@@ -457,10 +534,10 @@ Lemma infer_dropna col : strlist_col col -> infer_series_stype (dropna col) = in
 Proof. intros H. apply (infer_missing_invariant col (dropna col) H (dropna_idem col)). Qed.
 
 Theorem infer_perm_missing_invariant col col' :
-  homogeneous col -> strlist_col col -> Permutation (dropna col) (dropna col') ->
+  homogeneous col -> date_robust (dropna col) -> strlist_col col -> Permutation (dropna col) (dropna col') ->
   infer_series_stype col' = infer_series_stype col.
 Proof.
-  intros Hh Hs HP.
+  intros Hh HR Hs HP.
   assert (Hs1 : strlist_col (dropna col)) by (apply (strlist_col_of_dropna col); [apply dropna_idem | exact Hs]).
   assert (Hs2 : strlist_col (dropna col')).
   { unfold strlist_col in *. now rewrite <- (forallb_perm _ _ _ HP). }
@@ -468,7 +545,7 @@ Proof.
   assert (Hd : homogeneous (dropna col)).
   { destruct Hh as [A|B]; [left | right]; [now rewrite dropna_idem | now apply existsb_dropna_false]. }
   rewrite <- (infer_dropna col' Hs'), <- (infer_dropna col Hs).
-  symmetry. apply infer_perm_invariant; assumption.
+  symmetry. apply infer_perm_invariant; try assumption. now rewrite dropna_idem.
 Qed.
 
 (* ------------------------------------------------------------------ the decision table *)
@@ -515,18 +592,29 @@ Proof.
   rewrite forallb_forall in Z. rewrite (Z _ I) in N. discriminate.
 Qed.
 
+Lemma timestamp_false_of_cell ser x :
+  In x ser -> is_datestr x = false -> is_timestamp ser = false.
+Proof.
+  intros I D. apply is_timestamp_none. intros f. apply (parses_with_false f ser x I).
+  destruct x; auto; discriminate.
+Qed.
+
 Lemma table_bool col :
-  forallb is_bool_cell col = true -> col <> [] ->
+  forallb (fun c => is_bool_cell c || is_missing c) col = true -> dropna col <> [] ->
   infer_series_stype col = Inferred (Some st_categorical).
 Proof.
-  intros H Hne.
-  assert (N : has_nan col = false).
-  { apply (forallb_existsb_false is_bool_cell); auto. kind_false. }
-  pose proof (dropna_id _ N) as E.
-  rewrite infer_no_list_head by (rewrite E; apply (head_not_list is_bool_cell); auto; kind_false).
-  assert (D : dtype_of col = DBool).
-  { unfold dtype_of. rewrite E, N, (forallb_disjoint is_bool_cell is_strlike), H; auto. kind_false. }
-  rewrite E, D. destruct col; [congruence|]. reflexivity.
+  intros H Hne. apply forallb_dropna in H.
+  rewrite infer_no_list_head by (apply (head_not_list is_bool_cell); auto; kind_false).
+  assert (D : dtype_of col = if has_nan col then DObject else DBool).
+  { unfold dtype_of. rewrite (forallb_disjoint is_bool_cell is_strlike), H; auto. kind_false. }
+  destruct (dropna col) as [|c r] eqn:E; [congruence|]. rewrite <- E in *.
+  unfold infer_scalar_branch. rewrite D. destruct (has_nan col); simpl; [|reflexivity].
+  assert (T : is_timestamp (dropna col) = false).
+  { apply (timestamp_false_of_cell _ c); [rewrite E; simpl; auto|].
+    rewrite E in H. simpl in H. apply andb_true_iff in H. destruct H as [H _]. destruct c; auto; discriminate. }
+  assert (B : infers_boolean (dropna col) = true).
+  { unfold infers_boolean. rewrite H. now rewrite E. }
+  rewrite T, B, orb_true_r. reflexivity.
 Qed.
 
 Lemma table_int col :
@@ -548,17 +636,22 @@ Proof.
   destruct (has_nan col); simpl; destruct (above_thresh (min_count (dropna col))); reflexivity.
 Qed.
 
-Lemma table_date col :
-  forallb (fun c => is_datestr c || is_missing c) col = true ->
+Lemma table_date col f :
+  In (Some f) possible_time_formats ->
+  forallb (fun c => cell_accepts f c || is_missing c) col = true ->
   dropna col <> [] ->
   infer_series_stype col = Inferred (Some st_timestamp).
 Proof.
-  intros H Hne. apply forallb_dropna in H.
+  intros Hf H Hne. apply forallb_dropna in H.
+  assert (HD : forallb is_datestr (dropna col) = true).
+  { apply (forallb_weaken (cell_accepts f)); auto. kind_false. }
   rewrite infer_no_list_head by (apply (head_not_list is_datestr); auto; kind_false).
   assert (D : dtype_of col = DString).
   { unfold dtype_of. rewrite (forallb_weaken is_datestr is_strlike); auto. kind_false. }
+  assert (T : is_timestamp (dropna col) = true).
+  { apply is_timestamp_explicit. unfold explicit_parse. apply existsb_exists. exists (Some f). auto. }
   destruct (dropna col) as [|c r] eqn:E; [congruence|]. rewrite <- E in *.
-  unfold infer_scalar_branch, is_timestamp. rewrite D, H. reflexivity.
+  unfold infer_scalar_branch. rewrite D, T. reflexivity.
 Qed.
 
 Lemma table_string col :
@@ -574,16 +667,18 @@ Proof.
   assert (D : dtype_of col = DString) by (unfold dtype_of; now rewrite H).
   assert (T : is_timestamp (dropna col) = false).
   { apply existsb_exists in Hs. destruct Hs as [x [I S]].
-    unfold is_timestamp. destruct (forallb is_datestr (dropna col)) eqn:Z; auto.
-    rewrite forallb_forall in Z.
     assert (In x (dropna col)) by (apply filter_In; destruct x; try discriminate; auto).
-    specialize (Z _ H0). destruct x; discriminate. }
+    apply (timestamp_false_of_cell _ x); auto. destruct x; auto; discriminate. }
   assert (Hne : dropna col <> []).
   { apply existsb_exists in Hs. destruct Hs as [x [I S]]. intros Z.
     assert (In x (dropna col)) by (apply filter_In; destruct x; try discriminate; auto).
     rewrite Z in H0. destruct H0. }
+  assert (B : infers_boolean (dropna col) = false).
+  { unfold infers_boolean. rewrite (forallb_disjoint is_strlike is_bool_cell); auto.
+    - destruct (dropna col); reflexivity.
+    - kind_false. }
   destruct (dropna col) as [|c r] eqn:E; [congruence|]. rewrite <- E in *.
-  unfold infer_scalar_branch. rewrite D, T. simpl.
+  unfold infer_scalar_branch. rewrite D, T, B. simpl.
   destruct (above_thresh (min_count (dropna col))); simpl; auto.
   destruct (above_thresh (max_min_count (dropna col))); reflexivity.
 Qed.
@@ -662,6 +757,63 @@ Proof. split; vm_compute; reflexivity. Qed.
 
 Lemma above_thresh_mono a b : a <= b -> above_thresh a = true -> above_thresh b = true.
 Proof. unfold above_thresh. intros L H. apply Z.gtb_lt in H. apply Z.gtb_lt. lia. Qed.
+
+(* the code's deliberate rule for float columns whose values are all integral: with a
+   missing cell they are pandas' image of an integer column and are judged by
+   multiplicity, without one they are numerical -- so for THIS family the result is
+   not a function of the non-missing values alone *)
+Lemma table_integral_floats col :
+  forallb (fun c => is_float_cell c || is_missing c) col = true ->
+  dropna col <> [] ->
+  forallb is_integral (dropna col) = true ->
+  infer_series_stype col =
+  Inferred (Some (if has_nan col && above_thresh (min_count (dropna col))
+                  then st_categorical else st_numerical)).
+Proof.
+  intros H Hne I. apply forallb_dropna in H.
+  rewrite infer_no_list_head by (apply (head_not_list is_float_cell); auto; kind_false).
+  assert (D : dtype_of col = DFloat).
+  { unfold dtype_of.
+    rewrite (forallb_disjoint is_float_cell is_strlike), (forallb_disjoint is_float_cell is_bool_cell),
+            (forallb_disjoint is_float_cell is_int_cell), (forallb_weaken is_float_cell is_num_cell);
+      auto; kind_false. }
+  destruct (dropna col) as [|c r] eqn:E; [congruence|]. rewrite <- E in *.
+  unfold infer_scalar_branch. rewrite D, I. simpl.
+  destruct (has_nan col); simpl; [|reflexivity].
+  destruct (above_thresh (min_count (dropna col))); reflexivity.
+Qed.
+
+(* integer and boolean columns: the result is a function of the non-missing values *)
+Lemma column_of_dropna (P : cell -> bool) col col' :
+  dropna col' = dropna col ->
+  forallb (fun c => P c || is_missing c) col = true ->
+  forallb (fun c => P c || is_missing c) col' = true.
+Proof.
+  intros E H. apply forallb_forall. intros c Hc.
+  destruct (is_missing c) eqn:M; [now rewrite orb_true_r|].
+  assert (I : In c (dropna col')) by (apply filter_In; rewrite M; auto).
+  rewrite E in I. apply filter_In in I. destruct I as [I _].
+  rewrite forallb_forall in H. specialize (H c I). now rewrite M in H.
+Qed.
+
+Lemma infer_empty col : dropna col = [] -> infer_series_stype col = Inferred None.
+Proof. intros E. unfold infer_series_stype. now rewrite E. Qed.
+
+Theorem int_bool_missing_invariant col col' :
+  (forallb (fun c => is_int_cell c || is_missing c) col = true \/
+   forallb (fun c => is_bool_cell c || is_missing c) col = true) ->
+  dropna col' = dropna col ->
+  infer_series_stype col' = infer_series_stype col.
+Proof.
+  intros H E.
+  destruct (dropna col) as [|c r] eqn:D.
+  { now rewrite (infer_empty col D), (infer_empty col' E). }
+  assert (N : dropna col <> []) by (rewrite D; discriminate).
+  assert (N' : dropna col' <> []) by (rewrite E; discriminate).
+  destruct H as [H|H]; pose proof (column_of_dropna _ col col' (eq_trans E (eq_sym D)) H) as H'.
+  - rewrite (table_int col H N), (table_int col' H' N'). now rewrite E, D.
+  - now rewrite (table_bool col H N), (table_bool col' H' N').
+Qed.
 
 (* ------------------------------------------------------------------ frame level *)
 Definition typed_columns (df : list (string * list cell)) : list (string * stype) :=
